@@ -159,6 +159,45 @@ theorem consolidation_keeps_prefixes (p u : String) : ∀ (b existing : PrefixTa
       rw [tlookup_append_other existing p q v hne]
       exact h
 
+theorem scopeLookup_append_other (own outer : PrefixTable) (p q u : String) (h : q ≠ p) :
+    scopeLookup p (own ++ [(q, u)]) outer = scopeLookup p own outer := by
+  simp [scopeLookup, tlookup_append_other own p q u h]
+
+/-- **Consolidation never changes what a prefix means in the first node's scope** (D37 and D54, fixed):
+a prefix the first node binds itself *or inherits* keeps its namespace whatever the second node binds. -/
+theorem consolidation_keeps_scope (p u : String) (outer : PrefixTable) : ∀ (b existing : PrefixTable),
+    scopeLookup p existing outer = some u → scopeLookup p (mergePrefixesIn outer existing b) outer = some u := by
+  intro b
+  induction b with
+  | nil => intro existing h; exact h
+  | cons e rest ih =>
+    intro existing h
+    obtain ⟨q, v⟩ := e
+    unfold mergePrefixesIn
+    cases hq : scopeLookup q existing outer with
+    | some w => exact ih existing h
+    | none =>
+      apply ih
+      have hne : q ≠ p := by
+        intro e; subst e; rw [h] at hq; cases hq
+      rw [scopeLookup_append_other existing outer p q v hne]
+      exact h
+
+/-- with nothing inherited the hand-over is the plain `setdefault` one -/
+theorem mergePrefixesIn_nil (b existing : PrefixTable) : mergePrefixesIn [] existing b = mergePrefixes existing b := by
+  induction b generalizing existing with
+  | nil => rfl
+  | cons e rest ih =>
+    obtain ⟨q, v⟩ := e
+    unfold mergePrefixesIn mergePrefixes
+    cases hq : tlookup q existing <;> simp [scopeLookup, hq, tlookup, ih]
+
+/-- D54 witness: the first node inherits `pa` (bound above it), the second binds `pa` to something else; the plain
+`setdefault` hand-over would capture the first node's `pa`, the scoped one does not. -/
+example : scopeLookup "pa" (mergePrefixes [] [("pa", "urn:n1")]) [("pa", "urn:n0")] = some "urn:n1" ∧
+    scopeLookup "pa" (mergePrefixesIn [("pa", "urn:n0")] [] [("pa", "urn:n1")]) [("pa", "urn:n0")] = some "urn:n0" := by
+  decide
+
 example : (consolidate ⟨.unqualified, [("p", "urn:a")], [⟨"x", none⟩]⟩
                        ⟨.qualified, [("p", "urn:b"), ("q", "urn:c")], [⟨"y", none⟩, ⟨"z", some .unqualified⟩]⟩) =
     ⟨.unqualified, [("p", "urn:a"), ("q", "urn:c")],
